@@ -15,6 +15,13 @@ GRAPH_TIE = ("The model (lean/PjVerif/Model/Graph*.lean) mirrors task.py/wbs.py 
              "property's projection, while the Lean monitors (the Bool versions of the very predicates the theorems are about) judge the "
              "implementation's observed states. A mismatch or a broken proof triggers a failing-input search.")
 
+LOOPS_TIE = ("TRANSLATED tie of the inner loops: tools/extract_schedule.py turns, on every run, _ResourceUsage.reserved/reserve/__get_key and both "
+             "schedulers' __get_resource_nearest_available_date / __shift_by_resource_usage_and_calendar into PyLite terms; the *_source_* theorems "
+             "prove that running the translated source on a ledger is the model's function (nearestFwd/shiftFwd/nearestBwd/shiftBwd, reserved) and "
+             "leaves the ledger = old rows + the model's rows, for both balance settings - a semantic edit of those methods breaks these proofs (28 "
+             "edits tried, all break or leave the translatable fragment, which counts as a broken tie). The recursive passes around the loops are "
+             "hand-modelled. ")
+
 SCHED_TIE = ("The model (lean/PjVerif/Model/Sched.lean, Clone.lean) mirrors schedule.py statement by statement and is tied to the code by a "
              "correspondence stream (random WBSs with links on leaves and summaries, outside predecessors, milestones, fixed dates, 0-3 resources "
              "with weekly/dated/composed/bounded/dead calendars, scripted clock, both balance settings): ordered usage rows, dates and resource "
@@ -65,7 +72,7 @@ CLAIMED = {
               "the first reserved day, the end within the 24 hours after the last reserved day's midnight, a backward start within the first "
               "reserved day; milestones, completed and summary tasks reserve nothing; user-fixed dates of non-milestone leaves are returned "
               "unchanged. Hypotheses: membership flags describe the WBS, every clock reading of one calc lies on one calendar day; backward: no "
-              "user-fixed dates. " + SCHED_TIE),
+              "user-fixed dates. " + LOOPS_TIE + LOOPS_TIE + SCHED_TIE),
         design='6 (C04)', technique='Lean 4 proof (fill-loop specification + per-task placement invariant) + differential correspondence'),
     'C06': dict(
         text=("PARTIAL / split. The Lean model is a function, so purity and determinism of the MODEL hold by construction; that the implementation "
@@ -89,7 +96,7 @@ CLAIMED = {
               "rows of a leaf that takes part in no dependency are a function of its own data, its calendar, the project start, the (constant) "
               "clock and the default estimate, hence equal in any two WBSs that agree on those; for tasks with prerequisites (whose dates depend "
               "on them) the clause rests on the correspondence stream's removal pairs. "
-              + SCHED_TIE),
+              + LOOPS_TIE + SCHED_TIE),
         design='6 (C08)', technique='Lean 4 proof (fill-loop tightness + ledger monotonicity) of partial statements + counterexamples + differential correspondence'),
     'C09': dict(
         text=("PARTIAL. Proved for every WBS without user-fixed dates: C09_deadline (no task ends after the project end), C09_encode (start = midnight "
@@ -97,7 +104,7 @@ CLAIMED = {
               "booked before it was placed); C09_partial - every dependency between member tasks, declared or inherited, has predecessor end <= "
               "successor start, and with balancing on the schedule is late-packed, when no task that has children carries a link (finding "
               "KF-S2-C09, kernel-checked counterexample C09_full_fails replayed on every run) and outside link partners are leaves. "
-              + SCHED_TIE),
+              + LOOPS_TIE + SCHED_TIE),
         design='6 (C09)', technique='Lean 4 proof (backward pass invariant) of partial statements + counterexample + differential correspondence'),
     'C12': dict(
         text=("Theorems for every input of the critical-path model (leaf-level reading of the repaired activity-on-arc network): C12_exact - "
